@@ -7,7 +7,8 @@ import CpModel.ReaderProcess
 
     LENGTH MAXBYTES BUFSIZE FAILAT BODYHEX FRAG OPS
 
-  LENGTH, MAXBYTES, FAILAT = `N` (None) or a decimal; BODYHEX = hex (`-` empty);
+  LENGTH, MAXBYTES, FAILAT = `N` (None) or a decimal; FAILAT may also be `t<k>.<k>…`: a plan of TRANSIENT
+  faults of the stream (`runF`; the aborted operation prints like a 413); BODYHEX = hex (`-` empty);
   FRAG = `-` or comma-separated decimals (the i-th fp.read returns at most FRAG[i]+1 bytes);
   OPS = `-` or comma-separated `read | read:N | readline | readline:N | readlines | readlines:N | next`
   and the sink / iteration operations of `CpModel.ReaderSink`: `readfp | readfp:N` (`read(N, fp_out)`),
@@ -71,9 +72,24 @@ def showOutX : OutX → String
   | .yielded .err413 ls => "e413+" ++ Proto.hex ls.flatten
   | .yielded .fuel _ => "fuel"
 
+def parsePlan (s : String) : Option (List Nat) :=
+  match s.toList with
+  | 't' :: rest => ((String.ofList rest).splitOn ".").mapM (·.toNat?)
+  | _ => none
+
+def stepFaults (l m b fa body frag ops : String) : Option String :=
+  match Proto.optNat? l, Proto.optNat? m, b.toNat?, parsePlan fa, Proto.unhex? body, parseNats frag, parseOps ops with
+  | some l, some m, some b, some plan, some body, some frag, some ops =>
+    let cfg : Cfg := { length := l, maxbytes := m, bufsize := b }
+    let (outs, s) := runF cfg (initF body frag plan).1 (initF body frag plan).2 ops
+    let o := if outs.isEmpty then "-" else ",".intercalate (outs.map showOutX)
+    some s!"{o} off={s.off} br={s.bytesRead} done={if s.done then 1 else 0} buf={s.buffer.length}"
+  | _, _, _, _, _, _, _ => none
+
 def step (line : String) : String :=
   match Proto.fields line with
   | [l, m, b, fa, body, frag, ops] =>
+    if fa.startsWith "t" then (stepFaults l m b fa body frag ops).getD "bad-op" else
     match Proto.optNat? l, Proto.optNat? m, b.toNat?, Proto.optNat? fa, Proto.unhex? body,
           parseNats frag, parseOps ops with
     | some l, some m, some b, some fa, some body, some frag, some ops =>
